@@ -355,3 +355,67 @@ def rule_expansion(ctx, rule, rule_nomatch):
     for name, (r, msg) in sorted(bad.items()):
         ctx.report(r, "expand/" + name, msg, where_of(cr.tr))
     return decided
+
+
+# ------------------------------------------------------------------------------------------------ C07: expander probes
+# rule sets and uses OUTSIDE the class C04 explores but inside what a user can type: template elements under an ellipsis that
+# mention variables matched to runs of different lengths (either order), variables matched outside any ellipsis, no variable at all
+# under a zero-length run; run variables used without an ellipsis.  What the expansion is does not matter here; a panic does.
+PROBES = [
+    ([("(m (a ...) (b ...))", "(z (a b) ...)")], ["((1 2 3) (4 5))", "((1 2) (3 4 5))", "((1 2) (3 4))", "((1) (2 3))", "((1 2 3 4) (5))"]),
+    ([("(m (a ...) (b ...))", "(z #(b a) ...)")], ["((1 2 3) (4 5))", "((1 2) (3 4 5))"]),
+    ([("(m (a ...) (b ...) (c ...))", "(z (c (a) b) ...)")], ["((1 2 3) (4 5) (6))", "((1) (2 3) (4 5 6))", "((1 2) (3) (4 5))"]),
+    ([("(m a (b ...))", "(z (a b) ...)")], ["(1 (2 3))", "(1 (2))"]),
+    ([("(m (a ...) b)", "(z (a b) ...)")], ["((1 2 3) 4)"]),
+    ([("(m a ...)", "(z a)")], ["(1 2)", "(1)"]),
+    ([("(m (a b ...) ...)", "(z (a b ...) ...)")], ["((1 2 3) (4))", "((1) (2 3 4))"]),
+    ([("(m (a ...) (b ...))", "(z (a . b) ...)")], ["((1 2 3) (4 5))", "((1 2) (3 4 5))"]),
+]
+_PROBE_CACHE = {}
+
+
+def probes(fb):
+    """-> list of (rules text, use, outcome) with outcome ('ok',) | ('panic', message, function) | ('stuck', why); cached per fact base"""
+    if id(fb) in _PROBE_CACHE:
+        return _PROBE_CACHE[id(fb)]
+    cr = Crate(fb)
+    out = []
+    for rules_txt, uses in PROBES:
+        rules = [(parse(p_), parse(t_)) for p_, t_ in rules_txt]
+        label = " ".join("(%s %s)" % r for r in rules_txt)
+        try:
+            udt = cr.parse_rules(rules, set())
+        except (absint.Stuck, absint.Loop) as e:
+            out.append((label, None, ("stuck", "rule set: %s" % str(e)[:160]), set()))
+            continue
+        for u in uses:
+            mc = Machine(fb, max_visits=40, budget=40000)
+            try:
+                mc.run(cr.tr, [udt, "m", cr.datum(parse(u))])
+                pan = [e for e in mc.events if e[0] == "panic"]
+                out.append((label, u, ("panic", pan[0][1], pan[0][2] if len(pan[0]) > 2 else "?") if pan else ("ok",), set(mc.visited)))
+            except (absint.Stuck, absint.Loop) as e:
+                pan = [e_ for e_ in mc.events if e_[0] == "panic"]
+                out.append((label, u, ("panic", pan[0][1], pan[0][2] if len(pan[0]) > 2 else "?") if pan else ("stuck", str(e)[:160]), set(mc.visited)))
+    _PROBE_CACHE[id(fb)] = out
+    return out
+
+
+def rule_probes(ctx, rule):
+    fb = ctx.fb()
+    from .ctx import where_of
+    cr_tr = fb.find(TR)
+    n = 0
+    for label, use, outcome, _vis in probes(fb):
+        key = "expander/%s%s" % (label, (" on (m%s" % ((" " + use[1:]) if use != "()" else ")")) if use else "")
+        if outcome[0] == "stuck":
+            ctx.undecided(rule, key, "cannot follow the expander (%s)" % outcome[1], where_of(cr_tr))
+            continue
+        n += 1
+        ctx.inst(rule, key, {"outcome": outcome[0]})
+        ctx.oblige(outcome[0] == "ok")
+        if outcome[0] == "panic":
+            ctx.report(rule, "expander/" + outcome[2].rsplit("::", 1)[-1], "expanding %s panics (%s in %s): a template element under an ellipsis "
+                       "whose variables matched runs of different lengths must give an expansion or a reported error" % (
+                           key[len("expander/"):], outcome[1], outcome[2]), where_of(cr_tr))
+    return n
